@@ -1124,6 +1124,16 @@ func (e *CEnv) callExpr(x *CExpr) (Val, error) {
 			return Val{}, fmt.Errorf("fresh() needs an old state")
 		}
 		return Val{T: tBool, Term: and(not(eq(as[0].Term, "0")), not(sel(c.heapGet(e.old, "alloc", allocSort), as[0].Term)))}, nil
+	case "loopFresh":
+		// loopFresh(x): x was allocated after the loop (whose invariant this is) was entered
+		as, err := evalArgs()
+		if err != nil {
+			return Val{}, err
+		}
+		if e.loopEntry == nil {
+			return Val{}, fmt.Errorf("loopFresh() is only available in loop invariants")
+		}
+		return Val{T: tBool, Term: and(not(eq(as[0].Term, "0")), not(sel(c.heapGet(e.loopEntry, "alloc", allocSort), as[0].Term)))}, nil
 	case "isNaN", "isInf", "isFinite", "isPosInf", "isNegInf":
 		as, err := evalArgs()
 		if err != nil {
